@@ -105,6 +105,22 @@ class BoxEval(SymEval):
                         else:
                             raise NotSym("row concatenation operand")
                     return RowSet(rows)
+        if isinstance(e, ast.Call) and (attr_chain(e.func) or "") in ("torch.minimum", "torch.maximum") and len(e.args) == 2:
+            # element-wise: min(a, b) + c = min(a + c, b + c), so it is a reduction over candidates like the row reductions
+            kind = "min" if attr_chain(e.func).endswith("minimum") else "max"
+            a, b = self.ev(e.args[0]), self.ev(e.args[1])
+            return self._merge(kind, [self._as_red(kind, a), self._as_red(kind, b)])
+        if isinstance(e, ast.Call) and (attr_chain(e.func) or "") in ("torch.zeros_like", "torch.zeros") :
+            return RF.const(0)
+        if isinstance(e, ast.Subscript) and not getattr(e, "_tuple_elt", False) and isinstance(e.value, ast.BinOp) and isinstance(e.value.op, (ast.Add, ast.Sub)):
+            # (A + B)[:, i] = A[:, i] + B[:, i]
+            v = e.value
+            return self.ev(ast.BinOp(left=ast.Subscript(value=v.left, slice=e.slice, ctx=ast.Load()), op=v.op, right=ast.Subscript(value=v.right, slice=e.slice, ctx=ast.Load())))
+        if isinstance(e, ast.Subscript) and not getattr(e, "_tuple_elt", False) and isinstance(e.value, ast.Call) and (attr_chain(e.value.func) or "") in ("torch.minimum", "torch.maximum", "torch.zeros_like") and len(e.value.args) >= 1:
+            c = e.value
+            return self.ev(ast.Call(func=c.func, args=[ast.Subscript(value=a, slice=e.slice, ctx=ast.Load()) for a in c.args], keywords=[]))
+        if isinstance(e, ast.Subscript) and not getattr(e, "_tuple_elt", False) and isinstance(e.value, ast.UnaryOp) and isinstance(e.value.op, ast.USub):
+            return self.ev(ast.UnaryOp(op=ast.USub(), operand=ast.Subscript(value=e.value.operand, slice=e.slice, ctx=ast.Load())))
         if isinstance(e, ast.Subscript) and not getattr(e, "_tuple_elt", False):
             try:
                 base = self.ev(e.value)
@@ -638,7 +654,29 @@ def r7_signatures(repo: Repo, rep):
                   f"{len(bad)} incompatible call site(s), e.g. {bad[0]}" if bad else "ok", f"signature {tuple(params)}")
 
 
+def r10_membership_within_box(repo: Repo, rep):
+    R = rep.rule("R-C18-10", "the membership test of a ball-shaped primitive accepts nothing beyond the radius its box is built with: distance <= radius (no factor above 1, no added slack)",
+                 floor=2, why="points accepted by a widened membership test lie outside the box centre ± radius: consumers normalise them beyond [-1, 1]")
+    from ..absdom.poly import NotPoly
+    from .c05 import radial_membership
+    r = RF.atom("r")
+    for ci, fi, node, kind, bound, text in radial_membership(repo):
+        rep.saw(fi)
+        if kind != "norm" or bound is None:
+            rep.undecided(R, fi.site(node), fi.fq, "distance <= bound(radius) recognisable", text)
+            continue
+        try:
+            lin = bound.coeff_of("r")
+            rest = bound - lin * r
+            ok = lin.is_const() and rest.is_const() and lin.const_value() <= 1 and rest.const_value() <= 0
+        except NotPoly:
+            rep.undecided(R, fi.site(node), fi.fq, "bound linear in the radius", repr(bound))
+            continue
+        rep.check(R, ok, fi.site(node), fi.fq, "bound <= radius (the box uses centre ± radius)", f"bound {bound!r}", f"bound {bound!r}")
+
+
 def run(repo: Repo, rep):
+    r10_membership_within_box(repo, rep)
     r9_no_rounding(repo, rep)
     r1_r2_primitives(repo, rep)
     r3_lattice(repo, rep)
